@@ -31,6 +31,9 @@ import sqlite3
 import tempfile
 import zlib
 
+import kazoo.exceptions
+import kazoo.retry
+
 from treadmill import zknamespace as z
 from treadmill import zkutils
 from treadmill.trace import _zk
@@ -70,6 +73,25 @@ FAMILIES = {
     },
 }
 FAMILY_ORDER = ('trace', 'finished', 'server')
+
+# What can happen at a ZooKeeper write of the archiving run:
+#  stop      the archiver process dies there (a plain exception nothing in the
+#            code under test may handle),
+#  connloss  this one request fails with kazoo's ConnectionLoss and is not
+#            applied; the process lives on and the real code decides whether
+#            to retry (zkutils.with_retry), propagate or swallow,
+#  expired   same with SessionExpiredError (not retried by with_retry).
+FAULT_KINDS = ('stop', 'connloss', 'expired')
+
+
+def _fault(kind, text):
+    if kind == 'stop':
+        return fakezk.InjectedFault(text)
+    if kind == 'connloss':
+        return kazoo.exceptions.ConnectionLoss(text)
+    if kind == 'expired':
+        return kazoo.exceptions.SessionExpiredError(text)
+    raise ValueError(kind)
 
 APP_KINDS = ('scheduled', 'pending', 'configured', 'service_running',
              'service_exited', 'finished', 'killed', 'aborted', 'deleted',
@@ -185,6 +207,7 @@ class World(object):
         if seed:
             self.tree.children_order = self._order
         self.fault_at = None
+        self.fault_kind = 'stop'
         self.fired = False
         self.nwrites = 0
         self.oplog = []
@@ -226,7 +249,8 @@ class World(object):
         self.nwrites += 1
         if self.fault_at is not None and idx == self.fault_at:
             self.fired = True
-            raise fakezk.InjectedFault('write %d: %s %s' % (idx, opname, path))
+            raise _fault(self.fault_kind,
+                         'write %d: %s %s' % (idx, opname, path))
         self.oplog.append((opname, path))
         fam = self._family_of(path)
         if fam is None:
@@ -420,32 +444,56 @@ class World(object):
         self.pruned = {fam: {} for fam in FAMILY_ORDER}
         self.prune_errors = []
 
-    def run(self, fault_at=None):
-        """One iteration of sproc.trace's cleanup loop. Returns
-        (crashed, writes_done)."""
+    def run(self, fault_at=None, kind='stop'):
+        """One iteration of sproc.trace's cleanup loop, optionally with the
+        fault_at-th write failing (see FAULT_KINDS). Returns (outcome,
+        writes_attempted); outcome is 'completed' (also when the code under
+        test retried or swallowed the failure), 'stopped' (process died) or
+        'zk-error' (the kazoo exception left the cleanup loop, which ends
+        the sproc; its supervisor restarts it = the recovery run)."""
         self.fault_at = fault_at
+        self.fault_kind = kind
         self.fired = False
         self.nwrites = 0
         self.oplog = []
         zkc = self.archiver
         par = self.params
-        crashed = False
-        with vclock.Installed(self.clock, [app_zk]):
-            try:
-                app_zk.cleanup_trace(zkc, par['trace_batch'],
-                                     par['trace_expire'])
-                app_zk.cleanup_finished(zkc, par['finished_batch'],
-                                        par['finished_expire'])
-                app_zk.cleanup_trace_history(zkc, par['trace_hist_max'])
-                app_zk.cleanup_finished_history(zkc,
-                                                par['finished_hist_max'])
-                server_zk.cleanup_server_trace(zkc, par['trace_batch'])
-                server_zk.cleanup_server_trace_history(
-                    zkc, par['trace_hist_max'])
-            except fakezk.InjectedFault:
-                crashed = True
+        outcome = 'completed'
+        clock = self.clock
+
+        class _VirtualSleepRetry(kazoo.retry.KazooRetry):
+            """KazooRetry whose back-off sleeps on the virtual clock (a fixed
+            100 ms per attempt: kazoo's jitter is random)."""
+
+            def __init__(self, *args, **kwargs):
+                kwargs['sleep_func'] = lambda _secs: clock.sleep(0.1)
+                super(_VirtualSleepRetry, self).__init__(*args, **kwargs)
+
+        real_retry = kazoo.retry.KazooRetry
+        kazoo.retry.KazooRetry = _VirtualSleepRetry
+        try:
+            with vclock.Installed(self.clock, [app_zk]):
+                try:
+                    app_zk.cleanup_trace(zkc, par['trace_batch'],
+                                         par['trace_expire'])
+                    app_zk.cleanup_finished(zkc, par['finished_batch'],
+                                            par['finished_expire'])
+                    app_zk.cleanup_trace_history(zkc, par['trace_hist_max'])
+                    app_zk.cleanup_finished_history(
+                        zkc, par['finished_hist_max'])
+                    server_zk.cleanup_server_trace(zkc, par['trace_batch'])
+                    server_zk.cleanup_server_trace_history(
+                        zkc, par['trace_hist_max'])
+                except fakezk.InjectedFault:
+                    outcome = 'stopped'
+                except kazoo.exceptions.KazooException:
+                    if not self.fired:
+                        raise
+                    outcome = 'zk-error'
+        finally:
+            kazoo.retry.KazooRetry = real_retry
         self.fault_at = None
-        return crashed, self.nwrites
+        return outcome, self.nwrites
 
     # -- oracle -------------------------------------------------------------
     def _download(self, fam, node_name, blob, obj):
@@ -501,7 +549,7 @@ class World(object):
 
     def check(self, stage, clean, stats=None):
         """Raise Violation if the state breaks C18. stage: clean | crash |
-        recovery (goes into the bucket: the root causes differ)."""
+        zkerror | recovery (goes into the bucket: the root causes differ)."""
         nodes = self.tree.nodes
         par = self.params
         now = self.clock.peek()
